@@ -28,7 +28,7 @@ sm("C03", "Capacity as a TLC invariant (CapInv, CapObs) over all growth actions 
 sm("C08", "Every method taking an int x every index in -(L+1)..L+1 plus MinInt/MaxInt x lengths 0-4 x the four index-option sets enumerated by TLC (IdxMode=all) and replayed with a post-call re-validation of IsInit, Kind, Len, every Index, the configuration record and the raw slots; every method with an any / ...any / Operator parameter (found by reflection) x 38 awkward Go values, each followed by a usability probe, validated by Frame.tla's AwkwardRule (no panic, receiver still usable); receivers and arguments include whole structures with awkward LEAVES (nil pointers in slices, two struct types differing in the visibility of an embedded field, maps with different key sets, a NaN-keyed map). Traverse case families (every path of length 0-3 on all depth-2 trees, random deeper ones): an index that addresses nothing makes Traverse report failure, a failed descent is never resumed on an outer level.", frame=True)
 sm("C09", "ReadOnlyFrame checked by TLC on every enabled transition of the state machine started read-only (all call families); tables and traces replayed on the real Stack; every exported method of Stack and Condition (reflection) called on read-only receivers singly and in random sequences of 2-4, each event validated by Frame.tla's ReadOnlyRule against a deep VerifDump snapshot; afterwards the flag is cleared (snapshot must equal the one at flag-set time) and a setter must take effect again. Every event also records what a SECOND handle to the same instance shows afterwards (Condition.Init may only replace the instance behind the handle it was called on); read-only instances are additionally handed over as arguments and nested inside writable parents.", frame=True)
 sm("C13", "NoNestPush and option/content independence checked by TLC; push batches over {nil, leaf, native Stack, alias, pointer-to-alias, Condition, Condition holding a Stack} (each batch handed over as one slice that must come back unmodified) interleaved with set/clear/toggle of no-nesting on every kind replayed on real Stacks (content, CanNest, IsNesting, raw option bits); Len / IsNesting of every node of random trees against Measure (spec/Trees.tla). Every harness process first offers typed nil pointers, zero aliases and function-local LOOK-ALIKES of the alias types (same printed name, no Stack) to the converters, so that anything the package remembers about types has seen the worst before a case runs.")
-sm("C14", "PolicyDecides checked by TLC over all batches of length 1-3 against every accept-set (8 subsets) with and without capacity; the installed Go closure records its consult log, which is compared (count and order) together with content and Err() after every step. ClosuresDecide over every install / remove sequence of the validity, presentation, equality, marshal, unmarshal and COMPARISON closures on all five kinds: Valid(), the source of String() / IsEqual / Unmarshal, Marshal's result and Less(0,1) / Less(1,0) / Less(0,0) are compared after every step; without a comparison closure Less must be the built-in byte order of the element texts of the CURRENT content (ListOps!LessL) - the instance that exposed the SetLessFunc() snapshot defect repaired by dbc1c3b.")
+sm("C14", "PolicyDecides checked by TLC over all batches of length 1-3 against every accept-set (8 subsets) with and without capacity; the installed Go closure records its consult log, which is compared (count and order) together with content and Err() after every step. ClosuresDecide over every install / remove sequence of the validity, presentation, equality, marshal, unmarshal and COMPARISON closures on all five kinds: Valid(), the source of String() / IsEqual / Unmarshal, Marshal's result and Less(0,1) / Less(1,0) / Less(0,0) are compared after every step; without a comparison closure Less must be the built-in byte order of the element texts of the CURRENT content (ListOps!LessL) - the instance that exposed the SetLessFunc() snapshot defect repaired by dbc1c3b. On Conditions (CondMC.tla): validity, presentation, equality, unmarshal and evaluator closures, with the law CClosures (a setter touches only its own slot; installing decides what Valid / String / IsEqual / Unmarshal / Evaluate return, removing restores the built-in behaviour; a Condition without an equality closure never consults its peer's).")
 sm("C15", "TransferFrame checked by TLC over a two-handle state machine (source length 0-4 with nil elements, LIFO/FIFO; destination length 0-4, capacity none or 1-5, read-only / zero / no-nesting destinations; destination given as native, alias, pointer or foreign value); both handles observed in full after every replayed step.")
 sm("C17", "Lifecycle (zero / live / freed) in the state machine: Inert checked by TLC on every transition from the dead state, Free and Reset semantics; every exported method (reflection) called on zero and freed Stacks and Conditions with plain and awkward arguments, each event validated by Frame.tla's InertRule (no panic, no resurrection except Marshal/Init, zero results except the documented sentinels, Valid / IsEqual REPORT an error) and FreeRule (the handle becomes zero unless read-only; every other handle of the instance taken before the call can still be looked at and used).", frame=True)
 sm("C18", "OptIndependence and the FIFO latch checked by TLC; exhaustive sequences of {set, clear, toggle} x 8 options to depth 3 (quick) / 4 (thorough) replayed with raw option bits (verif hook) and getters compared; ID, category, delimiter (LIST only), symbol (non-LIST only), encapsulation pairs (duplicate characters refused) in a second instance; log levels (names, constants, raw integers, all / none) and the auxiliary map (never set / fresh / the caller's populated map / the caller's EMPTY map, each kept by reference) and the logger selection in further instances; random mixed sequences validated as traces.")
